@@ -164,6 +164,9 @@ impl G<'_> {
                     "echo bg >bgfile & wait; relay <bgfile",
                     "(exit 5) & (exit 6) & wait; echo \"st=$?\"",
                     "wait 99999; echo \"st=$?\"",
+                    // a directory in place of a command file: the PATH search passes over it
+                    "(PATH=$HERE:$PATH; d1 2>/dev/null; echo \"st=$?\"; command -v d1; echo \"st=$?\")",
+                    "(PATH=$HERE/d1:$PATH; d2 2>/dev/null; echo \"st=$?\"; command -v d2; echo \"st=$?\")",
                     // a child that has been waited for no longer exists: no signal reaches it
                     "(exit 3) & p=$!; wait; kill -s TERM $p 2>/dev/null; echo \"kill st=$?\"; wait $p; echo \"st=$?\"",
                     "(exit 4) & p=$!; wait $p; echo \"st=$?\"; kill -s 0 $p 2>/dev/null; echo \"kill0 st=$?\"; kill -s CONT $p 2>/dev/null; echo \"cont st=$?\"",
